@@ -8,7 +8,7 @@ META = {
     "technique": "Coq proof about intrinsic-level models of the x86-64 back ends (Model/Intrinsics.v, PpvSse.v, PpvAvx2.v): each (capability variant, type, operation group) equals the lane-wise contract Spec/Lanes.v for all operands (word lemmas, symbolic conversion on 16 byte variables, finite sweeps for the 16-bit-lane swaps); portable back end and soft.rs forwarding in Props/C12g.v; differential correspondence implementation = model = contract on generated cases for SSE2, SSSE3, SSE4.1, AVX, AVX2 and the portable back end; the intrinsic models are compared with this CPU on every run",
     "level_text": "Machine-checked theorems in Props/C12.v (x86-64 back ends, intrinsic-level models) and Props/C12g.v (portable back end generic.rs and the soft.rs x2/x4 wrappers), all closed under the global context, each for ALL operands: add = wrapping add per 32/64-bit word (C12_sse_u32x4/u64x2_add_lanewise, C12_avx2_add_lanewise, C12g_portable_binop_lanewise); xor/and/or/not/andnot word-wise for 4-, 8- and 16-byte words (C12_sse_bitops_lanewise, C12_avx2_bitops_lanewise); rotate_each_word_right k for every k the traits offer, in the shift-or, pshuflw/pshufhw, pshufd and pshufb forms of both SSSE3 capability variants (C12_sse_u32x4/u64x2/u128x1_rotr_lanewise, C12_avx2_rotr_lanewise, C12g_portable_unop_lanewise); word shuffles are the named permutations (C12_sse_u32x4/u64x4_shuffle_is_perm, C12_avx2_lane_shuffle_is_perm, C12g_portable_u64x4_shuffle_is_perm); bswap = byte reversal per word (both variants); swap1..swap64 move bit j to bit j xor n (C12_sse_u128x1_swap_is_bitgroup_swap, by a 65536-value sweep of a 16-bit lane lifted to all operands, and C12g swap theorems); the x2/x4 forms apply the 1-lane operation to each lane (C12g forwarding theorems); every operation returns Ok in both build profiles (C12g totality). Six of these statements were false on the pinned tree (defects P1, P2, P3, P5, P7, P14, repaired by fix: commits). Implementation = model = lane contract is checked on generated operands on SSE2, SSSE3, SSE4.1, AVX, AVX2 and the portable back end; the intrinsic models are compared with this CPU. Wide types on x86 (Proofs/PpvWide*.v): the x86-side copies of the soft.rs wrappers in Model/PpvSse.v are proved equal to Model/PpvSoft.v at the register type; the compound-assignment macros fwd_binop_assign_x2/x4 are modelled statement by statement (Model/PpvSoftAssign.v) and proved equal to the binary forms; composed lane theorems C12_wide_* for every x86 wide type (u32x4x2/x4, u64x2x2/x4, u64x4, u128x2/x4, u32x4x4_avx2): add, bit operations incl. not/andnot, rotate_each_word_right, bswap, lane-word shuffles, swapN; with them every (back end, type, operation) triple required by types.rs has a composed statement (coverage table in notes/ppv-wide.md: 1206 of 1206).",
     "level_note": "Trusted: Coq kernel+VM; Spec/Lanes.v; Model/Intrinsics.v (intrinsic semantics, validated against the host CPU on the same operand streams); hand-written models tied on generated cases; harness. No axioms.",
-    "rule": "x86 back ends: for each of the machines SSE2, SSSE3, SSE41, AVX, AVX2 every (type, method) the Machine bounds expose plus the methods the concrete types add (u128 bswap, and/or-assign, u32x4x2 lane shuffles); operands built with Machine::unpack and read with Into<storage>: zero, all-ones, byte-index pattern, high-bit patterns, carry chains, seeded random, walking-one basis (every bit for 128-bit types, every 7th bit for wider types in the quick tier, every bit in thorough); distinct = distinct (machine, type, op, parameter, operands); non-trivial = some operand byte non-zero; implementation outcome (ok/panic) and result compared with the intrinsic-level model and with the lane-wise contract inside coqc. Raw intrinsics: each _mm_*/_mm256_* the crate issues, same streams, the immediates of the source plus boundary ones, compared with Model/Intrinsics.v",
+    "rule": "x86 back ends: for each machine every (type, method) the Machine bounds expose plus the methods the concrete types add (u128 bswap, u32x4x2 lane shuffles, and `&=` / `|=` on ALL ten vector types: the 128-bit types, u32x4x2_avx2 and every soft.rs x2/x4 wrapper (u64x2x2, u64x4, u128x2, u32x4x4, u64x2x4, u128x4), next to `^=` on all ten and `+=` on the seven arithmetic types); operands built with Machine::unpack and read with Into<storage>: zero, all-ones, byte-index pattern, high-bit patterns, carry chains, seeded random, rhs-identity pairs (all-ones / zero against the byte-index pattern: every rhs lane different and the result is the rhs), walking-one basis (every bit for 128-bit types, every 7th bit for wider types in the quick tier, every 13th for the ':l' machines and the assign forms, every bit in thorough); quick tier: debug profile on SSE2, SSE41, AVX2 and SseMachine<YesS3,YesS4,YesNI>:l (AVX is the same Rust type as SSE41; S4 selects no code of these operations, so SSSE3 differs from SSE41 by its type only: both run in release), release profile (opt-level 2, no debug assertions) on SSE2, SSSE3, AVX, AVX2 with the --light 2 stream (same operand classes, walking one every 29th/11th bit, 5 carry chains); thorough: all five machines full streams in both profiles + the YesNI instantiation of the SSE machine; distinct = distinct (machine, type, op, parameter, operands); non-trivial = some operand byte non-zero; implementation outcome (ok/panic) and result compared with the intrinsic-level model and with the lane-wise contract inside coqc. Raw intrinsics: each _mm_*/_mm256_* the crate issues, same streams, the immediates of the source plus boundary ones, compared with Model/Intrinsics.v",
     "assumptions": ["little-endian x86-64 host with AVX2 (all five x86 machines are executed directly on it)"],
     "trusted_extra": [
         "x86 back ends: Model/Intrinsics.v gives the meaning of each intrinsic on byte-list registers; it is modelled, and compared with this host's CPU on every run (h_ppv intr)",
@@ -22,16 +22,30 @@ def run(ctx):
     extra = ("C12g",) if os.path.exists(os.path.join(vlib.COQ, "Props", "C12g.v")) else ()
     vlib.standard_proof_stage(ctx, extra_props=extra)
     tier = "quick" if ctx.quick else "thorough"
-    for profile in (("debug",) if ctx.quick else ("debug", "release")):
+    # (profile, raw-intrinsic stream?, [(configuration label, harness arguments)])
+    # AVX is the same Rust type as SSE41 (one monomorphisation): the quick tier runs it in release only and gives its
+    # debug slot to SseMachine<YesS3, YesS4, YesNI>, an instantiation no alias or dispatch macro names.
+    if ctx.quick:
+        # C12 operands never pass through insert/extract/from_lanes, so S4 selects no code here: SSSE3 is the S3 code
+        # of SSE41 under another type; it runs in release only
+        plan = [("debug", True, [("x86/debug", ["--tier", tier, "--machine", "SSE2,SSE41,AVX2,SSE41NI:l"])]),
+                ("release", False, [("x86/release", ["--tier", tier, "--light", 2, "--machine", "SSE2,SSSE3,AVX,AVX2"])])]
+    else:
+        plan = [(pr, True, [("x86/%s" % pr, ["--tier", tier]),
+                            ("x86-NI/%s" % pr, ["--tier", "quick", "--machine", "SSE41NI"])])
+                for pr in ("debug", "release")]
+    for profile, intr, runs in plan:
         binary, log = vlib.cargo_build(profile=profile, bin_name="h_ppv")
         if binary is None:
             raise vlib.CheckError("h_ppv build failed (%s): %s" % (profile, log[-2000:]))
-        ctx.log("x86 back ends, %s: raw intrinsics" % profile)
-        s = vlib.correspondence(ctx, binary, "intr", ["--tier", tier], "x86-intrinsics/%s" % profile)
-        vlib.decide_absolute(ctx, s, explain="explain_pi", theorem="(Model/Intrinsics.v is the trusted meaning of the instruction)")
-        ctx.log("x86 back ends, %s: harness c12" % profile)
-        s = vlib.correspondence(ctx, binary, "c12", ["--tier", tier], "x86/%s" % profile)
-        vlib.decide_absolute(ctx, s, explain="explain_px", theorem="C12_x86 theorems of Props/C12.v")
+        if intr:
+            ctx.log("x86 back ends, %s: raw intrinsics" % profile)
+            s = vlib.correspondence(ctx, binary, "intr", ["--tier", tier], "x86-intrinsics/%s" % profile)
+            vlib.decide_absolute(ctx, s, explain="explain_pi", theorem="(Model/Intrinsics.v is the trusted meaning of the instruction)")
+        for label, args in runs:
+            ctx.log("x86 back ends, %s: harness c12 %s" % (profile, " ".join(str(a) for a in args)))
+            s = vlib.correspondence(ctx, binary, "c12", args, label)
+            vlib.decide_absolute(ctx, s, explain="explain_px", theorem="C12_x86 theorems of Props/C12.v")
     try:
         from checks import ppvgen_part
     except ImportError:
